@@ -450,8 +450,8 @@ impl<K: Key + 'static, V: Reserve<K>> WHandle for WT<K, V> {
                 let b = kb::<K>(bound_of(&op["b"], kt, cx, &mut s1));
                 let upper = op["upper"].as_bool().unwrap();
                 let mut evs = vec![];
-                let opened = if upper { self.t.upper_bound_mut(b) } else { self.t.lower_bound_mut(b) };
-                let mut cur = match opened {
+                {
+                let mut cur = match if upper { self.t.upper_bound_mut(b) } else { self.t.lower_bound_mut(b) } {
                     Ok(c) => c,
                     Err(e) => return json!({"multi": [{"e": "cur_open", "n": op["n"], "b": op["b"], "upper": upper, "r": er(e)}]}),
                 };
@@ -499,6 +499,25 @@ impl<K: Key + 'static, V: Reserve<K>> WHandle for WT<K, V> {
                     }
                 };
                 evs.push(json!({"e": "cur_close", "end": op["end"], "r": r}));
+                }
+                // "after close() the table equals the sorted map": every key the cursor accepted (and its neighbours in
+                // the corpus) is looked up by key - a scan alone does not notice an entry that routing no longer reaches
+                let mut probe: Vec<u64> = vec![];
+                for ev in &evs {
+                    if ev["e"] == "cur" && ev["op"].as_str().is_some_and(|o| o.starts_with("ins")) && ev["r"].get("ok").is_some() {
+                        let k = ev["k"].as_u64().unwrap();
+                        probe.extend([k.saturating_sub(1), k, k + 1]);
+                    }
+                }
+                probe.sort_unstable();
+                probe.dedup();
+                probe.retain(|k| (*k as usize) < cx.key_space());
+                if op.get("verify").and_then(|v| v.as_bool()).unwrap_or(true) {
+                    for k in probe.into_iter().take(64) {
+                        let r = r_get::<K, V, _>(&self.t, cx, kt, vt, k as u32);
+                        evs.push(json!({"e": "get", "src": "w", "n": op["n"], "k": k, "r": r}));
+                    }
+                }
                 json!({"multi": evs})
             }
             "rcursor" => r_cursor::<K, V, _>(&self.t, cx, kt, vt, op),
